@@ -494,10 +494,28 @@ class Ev:
                 return self.ev(e.value)
             return self.read(self.key(e))
         if isinstance(e, ast.Subscript):
+            full = None
+            if isinstance(e.value, (ast.Name, ast.Attribute, ast.Subscript)):
+                full = self.key(e)
+                if full in self.heap:
+                    return self.heap[full]
             base = None
             if isinstance(e.value, ast.Name) and e.value.id in self.env:
                 base = self.env[e.value.id]
-            elif isinstance(e.value, (ast.Tuple, ast.List)):
+                if isinstance(base, str):
+                    base = self.heap.get(base)
+            elif isinstance(e.value, (ast.Attribute, ast.Subscript)):
+                bk = self.key(e.value)
+                if bk in self.heap:
+                    base = self.heap[bk]
+                elif isinstance(e.value, ast.Subscript):
+                    b2 = self.ev(e.value)
+                    if isinstance(b2, (tuple, list)) or (
+                            isinstance(b2, Rat) and
+                            repr(b2) != repr(Rat.atom(bk))):
+                        base = b2
+            elif isinstance(e.value, (ast.Tuple, ast.List, ast.BinOp, ast.Call,
+                                      ast.UnaryOp)):
                 base = self.ev(e.value)
             if isinstance(base, (tuple, list)) and isinstance(e.slice, ast.Slice):
                 def cint(x, default):
@@ -529,11 +547,9 @@ class Ev:
                         -len(base) <= int(c) < len(base):
                     return base[int(c)]
             if isinstance(base, Rat):
-                # element of an array-valued quantity: elementwise semantics,
-                # only for scalar broadcasting indices ([0], [:, None] ...)
                 ik = self.index_key(e.slice)
                 return self.elem(base, ik, e)
-            return self.read(self.key(e))
+            return self.read(full if full is not None else self.key(e))
         if isinstance(e, ast.UnaryOp):
             if isinstance(e.op, ast.USub):
                 return -self.ev(e.operand)
@@ -575,14 +591,35 @@ class Ev:
         raise Inconclusive(type(e).__name__ + ' ' + unparse(e))
 
     def elem(self, base, ik, node):
-        # a pure alias of an array-valued quantity: indexed atom
+        mask = isinstance(node.slice, ast.Compare) or any(
+            c in ik for c in '<>=')
+        if mask or ':' in ik:
+            return base
+        pure = None
         if base.d == ONEP and len(base.n.d) == 1:
             (k, c), = base.n.d.items()
-            if c == 1 and len(k) == 1 and k[0][1] == 1 and \
-                    not isinstance(node.slice, ast.Compare) and \
-                    '<' not in ik and '>' not in ik and '=' not in ik:
-                return Rat.atom(f'{k[0][0]}[{ik}]')
-        return base
+            if c == 1 and len(k) == 1 and k[0][1] == 1:
+                pure = k[0][0]
+        if pure is not None:
+            if ik == '0' and pure.endswith(']') and \
+                    getattr(self, 'drop_singleton', False):
+                return base
+            return Rat.atom(f'{pure}[{ik}]')
+        # computed array: numpy indexes elementwise -> distribute the index
+        # over the array-valued atoms (when the rule says which they are)
+        is_arr = getattr(self, 'is_array', None)
+        if is_arr is None:
+            return base
+        if ik == '0' and getattr(self, 'drop_singleton', False):
+            return base
+        sub = {}
+        for a in base.atoms():
+            if is_arr(a) and not a.endswith(']'):
+                sub[a] = Poly.atom(f'{a}[{ik}]')
+        n, d = base.n, base.d
+        for a, v in sub.items():
+            n, d = n.subst(a, v), d.subst(a, v)
+        return Rat(n, d)
 
     def arith(self, op, a, b, node=None):
         if isinstance(a, (tuple, list)) or isinstance(b, (tuple, list)):
